@@ -450,3 +450,63 @@ func replayC04(p *Prepared, rp replayT) {
 	fmt.Fprintf(os.Stderr, "replay c04: state %s after %v: outcome=%s send=%v recv=%v tree=%q\n", cur.Hash, cr.History, x.Outcome, last.SendErr, last.RecvErr, last.TreeDiff)
 	checkC04(p, cur, bits, r, x, last)
 }
+
+// wireDump wraps an observer and records all bytes per stream direction (replay diagnostics).
+type wireDump struct {
+	inner quic.Observer
+	log   map[string][]byte
+	order []string
+}
+
+func (w *wireDump) StreamOpened(s *quic.Stream) {
+	if w.inner != nil {
+		w.inner.StreamOpened(s)
+	}
+}
+func (w *wireDump) BeforeWrite(s *quic.Stream, p []byte) (int, quic.Fault) {
+	k := streamKey(s)
+	if w.log == nil {
+		w.log = map[string][]byte{}
+	}
+	if _, ok := w.log[k]; !ok {
+		w.order = append(w.order, k)
+	}
+	w.log[k] = append(w.log[k], p...)
+	vrt.Emit("wire", k, len(p))
+	if w.inner != nil {
+		return w.inner.BeforeWrite(s, p)
+	}
+	return len(p), quic.NoFault
+}
+
+func (w *wireDump) print() {
+	for _, k := range w.order {
+		b := w.log[k]
+		if strings.HasSuffix(k, ":0") {
+			fmt.Fprintf(os.Stderr, "  wire %s (%d bytes):\n", k, len(b))
+			off := 0
+			if strings.Contains(k, "/c:") && len(b) > 8 {
+				l := int(b[4])<<24 | int(b[5])<<16 | int(b[6])<<8 | int(b[7])
+				off = 8 + l
+				fmt.Fprintf(os.Stderr, "    header+manifest %d bytes\n", off)
+			}
+			ms := memStream{bytes.NewReader(b[off:])}
+			for {
+				typ, msg, err := transfer.VerifReadControlMessage(ms)
+				if err != nil {
+					break
+				}
+				fmt.Fprintf(os.Stderr, "    0x%02x %+v\n", typ, msg)
+			}
+		} else {
+			fmt.Fprintf(os.Stderr, "  wire %s (%d bytes): data frames", k, len(b))
+			for off := 0; off+20 <= len(b); {
+				l := int(b[off+12])<<24 | int(b[off+13])<<16 | int(b[off+14])<<8 | int(b[off+15])
+				idx := int(b[off+8])<<24 | int(b[off+9])<<16 | int(b[off+10])<<8 | int(b[off+11])
+				fmt.Fprintf(os.Stderr, " [chunk %d len %d]", idx, l)
+				off += 20 + l
+			}
+			fmt.Fprintln(os.Stderr)
+		}
+	}
+}
